@@ -6,7 +6,8 @@ root = os.path.dirname(os.path.dirname(os.path.abspath(__file__)))
 base = json.load(open(os.path.join(root, "tools", "base_registry.json")))
 model_imports = list(base["model_imports"]); proofs_imports = list(base["proofs_imports"])
 drv_imports = list(base["drv_imports"]); drv_handlers = list(base["drv_handlers"])
-index = dict(base["proofs_index"]); manifest = dict(base["manifest"]); findings = list(base["findings"])
+import copy as _copy
+index = _copy.deepcopy(base["proofs_index"]); manifest = dict(base["manifest"]); findings = list(base["findings"])
 skip = set(base.get("skip_handoffs", []))
 notes = {}
 for path in sorted(glob.glob(os.path.join(root, "handoff", "*.json"))):
@@ -26,7 +27,19 @@ for path in sorted(glob.glob(os.path.join(root, "handoff", "*.json"))):
             if x not in dst and x not in base.get("exclude", []):
                 dst.append(x)
     for k, v in h.get("proofs_index", {}).items():
-        if k in base.get("index_override", {}):
+        if k in base["proofs_index"]:
+            # the integrator owns this entry: merge only declared extras
+            e = index[k]
+            for t in v.get(f"{k}_extra_theorems", []):
+                if t not in e["theorems"]:
+                    e["theorems"].append(t)
+            for m in v.get(f"{k}_extra_modules", []):
+                tgt = e["gen_modules"] if ".Gen." in m else e["modules"]
+                if m not in tgt:
+                    tgt.append(m)
+            for a_ in v.get(f"{k}_extra_assumptions", []):
+                if a_ not in e.setdefault("assumptions", []):
+                    e["assumptions"].append(a_)
             continue
         index[k] = v
     for k, v in h.get("manifest", {}).items():
